@@ -1280,7 +1280,135 @@ Lemma double_close_witness :
 Proof. vm_compute. auto 20. Qed.
 
 Lemma tcp_example :
-  let st := run false stdio3 (tcp_prog ++ [OLoopClose]) [] in
+  let st := run true stdio3 (tcp_prog ++ [OLoopClose]) [] in
   hd (ERet RC_ERR) (i_tr (snd st)) = ERet RC_OK /\ m_leaked (fst st) = [] /\
   length (i_led (snd st)) = 5.
 Proof. vm_compute. auto. Qed.
+
+(* ------------------------------------------------------------------ *)
+(* the code as it is (m_fixed = true): no close by remembered number    *)
+(* ------------------------------------------------------------------ *)
+Fixpoint no_raw {A} (p : prog A) : Prop :=
+  match p with
+  | Ret _ => True
+  | Create _ _ _ c => forall a, no_raw (c a)
+  | RawClose _ _ => False
+  | CloseIf _ _ c | Relabel _ c | UserClose _ c | UserAdd _ _ c => no_raw c
+  | Adopt _ _ c => forall b, no_raw (c b)
+  | Has _ c => forall b, no_raw (c b)
+  | Count _ c => forall n, no_raw (c n)
+  | FdOf _ c => forall x, no_raw (c x)
+  end.
+
+Definition trace_no_raw (tr : list event) : Prop := forall fd x, ~ In (ERawClose fd x) tr.
+
+Lemma close_if_no_raw : forall p g L L' ev fd x, close_if p g L = (L', ev) -> ~ In (ERawClose fd x) ev.
+Proof.
+  induction L as [|[n e1] r IH]; intros L' ev fd x H Hin; cbn in H.
+  - inversion H; subst. destruct Hin.
+  - destruct (close_if p g r) as [r' ev'] eqn:E. destruct (p (e_owner e1)).
+    + destruct (g && Nat.leb n 2); inversion H; subst;
+        (destruct Hin as [Hin | Hin]; [discriminate | eapply IH; eauto]).
+    + inversion H; subst. eapply IH; eauto.
+Qed.
+
+Lemma user_close_no_raw : forall sel L L' ev fd x, user_close sel L = (L', ev) -> ~ In (ERawClose fd x) ev.
+Proof.
+  induction L as [|[n e1] r IH]; intros L' ev fd x H Hin; cbn in H.
+  - inversion H; subst. destruct Hin.
+  - destruct (user_close sel r) as [r' ev'] eqn:E.
+    destruct (sel n (e_owner e1) && is_user (e_owner e1)); inversion H; subst.
+    + destruct Hin as [Hin | Hin]; [discriminate | eapply IH; eauto].
+    + eapply IH; eauto.
+Qed.
+
+Lemma no_raw_sound {A} (p : prog A) : forall s,
+  no_raw p -> trace_no_raw (i_tr s) -> trace_no_raw (i_tr (snd (run_prog p s))).
+Proof.
+  induction p as [a | k os cx c IH | p g c IH | f c IH | fd o' c IH | p c IH | p c IH | ow c IH
+                 | fd c IH | sel c IH | fd cx c IH]; intros s Hp Ht; cbn in Hp |- *.
+  - auto.
+  - destruct (next_ans (i_orc s)) as [a orc]. destruct a.
+    + destruct (alloc (i_led s) os cx) as [L fds]. apply IH; cbn; auto.
+      intros n x [H | H]; [discriminate | eapply Ht; eauto].
+    + apply IH; cbn; auto. intros n x [H | H]; [discriminate | eapply Ht; eauto].
+    + apply IH; cbn; auto. intros n x [H | H]; [discriminate | eapply Ht; eauto].
+  - destruct (close_if p g (i_led s)) as [L ev] eqn:E. apply IH; cbn; auto.
+    intros n x H. apply in_app_or in H. destruct H as [H | H]; [| eapply Ht; eauto].
+    apply in_rev in H. eapply close_if_no_raw; eauto.
+  - apply IH; auto.
+  - destruct (adopt fd o' (i_led s)) as [L x]. destruct x as [from|]; apply IH; cbn; auto.
+    intros n x [H | H]; [discriminate | eapply Ht; eauto].
+  - apply IH; auto.
+  - apply IH; auto.
+  - apply IH; auto.
+  - destruct Hp.
+  - destruct (user_close sel (i_led s)) as [L ev] eqn:E. apply IH; cbn; auto.
+    intros n x H. apply in_app_or in H. destruct H as [H | H]; [| eapply Ht; eauto].
+    apply in_rev in H. eapply user_close_no_raw; eauto.
+  - apply IH; auto.
+Qed.
+
+Ltac walknr :=
+  repeat first
+    [ progress cbn -[own_is is_queued is_temp move shift_queue hok is_open add_handle set_hst all_closed Nat.mul is_lib]
+    | progress unfold init_fail_tail, spawn_error_temps
+    | match goal with
+      | |- _ /\ _ => split
+      | |- True => exact I
+      | |- forall _, _ => intro
+      | |- no_raw (if ?b then _ else _) => destruct b
+      | |- no_raw ((if ?b then _ else _) _) => destruct b
+      | |- no_raw (match ?x with _ => _ end) => destruct x
+      end ].
+
+Lemma nr_accept_shed m l h : forall fuel, no_raw (accept_shed fuel l h m).
+Proof. induction fuel; walknr; auto. Qed.
+Lemma nr_recvfds m h : forall n, no_raw (op_recvfds m h n).
+Proof. induction n; walknr; auto. Qed.
+Lemma nr_spawn_unwind m : m_fixed m = true -> forall done c, no_raw c -> no_raw (spawn_unwind m done c).
+Proof.
+  intros Hf. induction done as [|sh r IH]; intros c Hc; walknr; auto.
+  apply IH. destruct x; [rewrite Hf|]; auto.
+Qed.
+Lemma nr_spawn_open m rc : m_fixed m = true -> forall sd i done, no_raw (spawn_open m i sd done rc).
+Proof.
+  intros Hf. induction sd as [|x r IH]; intros i done; [exact I|].
+  destruct x; walknr; auto; apply nr_spawn_unwind; auto; walknr.
+Qed.
+Lemma nr_spawn_pairs : forall sd i k, (forall b, no_raw (k b)) -> no_raw (spawn_pairs i sd k).
+Proof. induction sd as [|x r IH]; intros i k Hk; [apply Hk|]. destruct x; walknr; auto. Qed.
+
+Theorem op_no_raw m o : m_fixed m = true -> no_raw (op_prog m o).
+Proof.
+  intros Hf. unfold op_prog. destruct (m_abort m); [exact I|].
+  destruct o; try (unfold op_loop_init, op_loop_close, op_iou_lazy, op_hinit, op_ensure, op_pipe_bind, op_open,
+    op_accept, op_close, op_run, op_fsevent_start, op_give1, op_give2, op_user_close, op_user_close_fd,
+    op_user_add, op_slurp; walknr; fail).
+  - unfold op_srvio. walknr. apply nr_accept_shed.
+  - destruct (hok m h HAcc); [apply nr_recvfds | exact I].
+  - unfold op_spawn. walknr. apply nr_spawn_pairs. intros b. walknr; apply nr_spawn_open; exact Hf.
+Qed.
+
+(* every close libuv performs, in every program of the current code, goes through a descriptor
+   field and targets an entry libuv owns; there is no close by number at all *)
+Theorem never_close_foreign_current fds ops orc :
+  let tr := i_tr (snd (run true fds ops orc)) in
+  (forall fd o, In (EClose fd o) tr \/ In (EKeep fd o) tr -> is_lib o = true) /\
+  (forall fd x, ~ In (ERawClose fd x) tr).
+Proof.
+  cbn zeta. split; [exact (never_close_foreign true fds ops orc)|].
+  unfold run.
+  assert (H0 : Inv (minit true, mkI (user_ledger fds) orc []) /\
+               m_fixed (fst (minit true, mkI (user_ledger fds) orc [])) = true /\
+               trace_no_raw (i_tr (snd (minit true, mkI (user_ledger fds) orc [])))).
+  { split; [apply init_inv | split; [reflexivity | intros fd x []]]. }
+  revert H0. generalize (minit true, mkI (user_ledger fds) orc []).
+  induction ops as [|o r IH]; intros st (HI & Hf & Ht); cbn; auto.
+  apply IH. destruct (step_spec st o HI) as (HI' & Hf' & _).
+  split; [exact HI' | split; [congruence |]].
+  unfold step.
+  pose proof (no_raw_sound (op_prog (fst st) o) (snd st) (op_no_raw _ _ Hf) Ht) as H1.
+  destruct (run_prog (op_prog (fst st) o) (snd st)) as [r0 s0]. cbn in *.
+  intros fd x [H | H]; [discriminate | eapply H1; eauto].
+Qed.
